@@ -176,6 +176,8 @@ def plan(pid, tier, rng, behaviours):
     for b in backends:
         for ks in dd.keysets_for(b):
             for vs in dd.valsets_for(b):
+                if pid != 'C03' and (ks.startswith('alias') or vs == 'srcinf'):
+                    continue          # C03's known findings (key aliasing, unreadable source text) are not persistence matters
                 combos.append((b, ks, vs))
     jobs = []
     root = common.scratch('dict-replay')
@@ -193,8 +195,14 @@ def plan(pid, tier, rng, behaviours):
 
 
 def main(pid, tier):
-    assert pid in ('C03', 'C04')
+    assert pid == 'C03'
     rep = common.Report(pid, tier)
+    cov, assumptions = run(pid, tier, rep)
+    return rep.finish('model_checking', cov, assumptions)
+
+
+def run(pid, tier, rep):
+    """the whole dict-engine pass for one property (C03, or the single-process clauses of C04); rejections go to `rep`"""
     thorough = tier == 'thorough'
     work = common.scratch('dict')
     rng = random.Random(common.seed() * 17 + int(pid[1:]))
@@ -271,14 +279,14 @@ def main(pid, tier):
            'model_checking': {'layer_I_runs': mcs, 'behaviours': len(behaviours), 'generation_states': gen_states},
            'trace_validation': {'traces': len(traces), 'events': st['events'], 'rejected_events': nrej,
                                 'wall_s': round(st['wall'], 1), 'replay_wall_s': round(t_replay, 1)}}
-    return rep.finish('model_checking', cov, [
+    return cov, [
         'keys come from nine key sets (plain strings, the aliasing pairs 1/"1" and "a-b"/"a_b", tuples, ints, and keys produced by '
         'klepto\'s own pickle/hash/string/raw keymaps); a backend only gets key sets it accepts (JSON: strings; sqlite: scalars)',
         'values per encoding: ints everywhere; nested containers with floats incl. inf, bytes, None and functions for pickled '
         'encodings; JSON-representable values for JSON; literals (and inf) for source text; str/float/bytes/int for sqlite; one '
         'unencodable value (an object whose __reduce__ raises)',
         'three locations of one archive type under different names in one directory / database; copy(name) once per sequence',
-        'HDF5 and sqlalchemy backends cannot be constructed offline; memory-mapped directory archives need numpy (absent)'])
+        'HDF5 and sqlalchemy backends cannot be constructed offline; memory-mapped directory archives need numpy (absent)']
 
 
 def replay(pid, path):
